@@ -91,7 +91,19 @@ func (ctx *Context) Parse(value string) error {
 	}
 	// 设置错误消息语言
 	SetParseErrorLanguage(ctx.Config.ParseErrorLanguage)
-	_, err := p.parse(nil)
+	_, err := func() (val any, err error) {
+		// the parser signals an exhausted ParseExprLimit by panicking
+		defer func() {
+			if e := recover(); e != nil {
+				if e == errMaxExprCnt {
+					err = errMaxExprCnt
+					return
+				}
+				panic(e)
+			}
+		}()
+		return p.parse(nil)
+	}()
 	if err != nil {
 		ctx.Error = err
 		return err
